@@ -50,3 +50,13 @@ def tier2(tier, rng):
     for (h, w, k) in [(1, 1, 1), (1, 2, 1), (1, 2, 2), (2, 2, 1), (2, 2, 2)]:
         for _ in range(6 if th else 2):
             yield _rand(rng, h, w, k)
+
+
+def big(tier, rng):
+    """long single-row / single-column boards cut into two regions, compasses at the two ends with two-digit counts"""
+    th = tier == "thorough"
+    for n in (L.LONG if th else L.sample(rng, L.LONG, 3) + [23]):
+        a = rng.randint(11, n - 1)
+        div = [0] * a + [1] * (n - a)
+        yield {"h": 1, "w": n, "cps": [[0, 0, -1, 0, -1, a - 1], [0, n - 1, 0, n - a - 1, 0, -1]], "planted": [div]}
+        yield {"h": n, "w": 1, "cps": [[0, 0, 0, -1, a - 1, -1], [n - 1, 0, n - a - 1, 0, -1, 0]], "planted": [div]}
